@@ -791,6 +791,7 @@ def check_grad_sequences(rep, rng, syms, d, fam, kind=""):
         steps.append(("grad_then_subs", (y, eg.number())))
     else:
         steps.append(("subs_then_grad", (x, x * rng.choice([2, -1]) + rng.choice([0, 1]))))
+    steps.append(("grad_then_subs_all", None))
     steps.append(("recomposed", None))
     steps.append(("lambdify_then_grad", None))
     for what, args in steps:
@@ -807,6 +808,19 @@ def check_grad_sequences(rep, rng, syms, d, fam, kind=""):
             elif what == "grad_then_subs":
                 got = entries_of(ev(gr(d, x).subs(*args)), len(es))
                 want = pl.ref_subs(diff_entries(es, x), args)
+            elif what == "grad_then_subs_all":
+                # every symbol replaced by a number, one `subs` call after the other, on the formal
+                # sum the gradient returns (its scalars still carry symbols when a phase is not affine)
+                # (tensor boxes differentiate lazily — `Box.grad` is a bubble applying d/dx when it is
+                # evaluated — so there the variable itself stays: replacing it first is another question)
+                vals = {s_: sympy.Rational(rng.randint(-5, 5), rng.choice([2, 3, 4])) for s_ in free
+                        if not (fam == "tensor" and s_ == x)}
+                case["values"] = {str(k_): str(v_) for k_, v_ in vals.items()}
+                g = gr(d, x)
+                for s_ in sorted(vals, key=str, reverse=rng.random() < 0.5):
+                    g = g.subs(s_, vals[s_])
+                got = entries_of(ev(g), len(es))
+                want = [sympy.sympify(e_).subs(vals) for e_ in diff_entries(es, x)]
             elif what == "recomposed":
                 if len(d.boxes) < 2:
                     continue
@@ -1435,7 +1449,7 @@ def run(tier, seed, replay=None):
     # sequences and histories: own generators (the cases above stay those of earlier runs)
     t0 = time.time()
     srng = random.Random(seed * 1000003 + 152)
-    for fam, n in ([("tensor", 8), ("bubble", 3), ("pure", 3), ("default", 1)] if quick
+    for fam, n in ([("tensor", 8), ("bubble", 3), ("pure", 3), ("default", 8)] if quick
                    else [("tensor", 80), ("bubble", 30), ("pure", 50), ("default", 10)]):
         for _ in range(n):
             r = random.Random(srng.getrandbits(64))
